@@ -1,13 +1,52 @@
 import TantivyModel.Driver.Proto
+import TantivyModel.Driver.C01
+import TantivyModel.Driver.C02
+import TantivyModel.Driver.C03
+import TantivyModel.Driver.C04
+import TantivyModel.Driver.C05
+import TantivyModel.Driver.C06
+import TantivyModel.Driver.C07
+import TantivyModel.Driver.C08
+import TantivyModel.Driver.C09
+import TantivyModel.Driver.C10
+import TantivyModel.Driver.C11
+import TantivyModel.Driver.C12
+import TantivyModel.Driver.C13
+import TantivyModel.Driver.C14
+import TantivyModel.Driver.C15
+import TantivyModel.Driver.C16
+import TantivyModel.Driver.C17
+import TantivyModel.Driver.C18
+import TantivyModel.Driver.C19
 import TantivyModel.Driver.C20
 /-!
 `tvmodel`: line-protocol driver for the executable model. One request per input line
 (`Cxx op args…`), one response line per request, flushed immediately.
+Each property owns `TantivyModel/Driver/Cxx.lean` (`handle : List String → String`).
 -/
 open TantivyModel
 
 def dispatch (line : String) : String :=
   match line.trimAscii.toString.splitOn " " with
+  | "C01" :: rest => Driver.C01.handle rest
+  | "C02" :: rest => Driver.C02.handle rest
+  | "C03" :: rest => Driver.C03.handle rest
+  | "C04" :: rest => Driver.C04.handle rest
+  | "C05" :: rest => Driver.C05.handle rest
+  | "C06" :: rest => Driver.C06.handle rest
+  | "C07" :: rest => Driver.C07.handle rest
+  | "C08" :: rest => Driver.C08.handle rest
+  | "C09" :: rest => Driver.C09.handle rest
+  | "C10" :: rest => Driver.C10.handle rest
+  | "C11" :: rest => Driver.C11.handle rest
+  | "C12" :: rest => Driver.C12.handle rest
+  | "C13" :: rest => Driver.C13.handle rest
+  | "C14" :: rest => Driver.C14.handle rest
+  | "C15" :: rest => Driver.C15.handle rest
+  | "C16" :: rest => Driver.C16.handle rest
+  | "C17" :: rest => Driver.C17.handle rest
+  | "C18" :: rest => Driver.C18.handle rest
+  | "C19" :: rest => Driver.C19.handle rest
   | "C20" :: rest => Driver.C20.handle rest
   | ["ping"] => "pong"
   | _ => "bad-op"
